@@ -109,6 +109,7 @@ pub fn execute(plan: &Plan, choices: Option<Vec<u32>>, record: bool, props: &[St
                 (Op::UpdateMaxCost { .. }, Some(_)) => add("capacity_change", 1),
                 (Op::Jump { .. }, Some(_)) => add("clock_jump_op", 1),
                 (Op::StallSelf { .. }, Some(_)) => add("stall_placed_inside_the_next_operation", 1),
+                (Op::StallWorker { .. }, Some(_)) => add("processor_stalled_inside_its_next_piece_of_work", 1),
                 (Op::WhileHolding { .. }, Some(_)) => add("call_made_while_holding_a_reference", 1),
                 (Op::Insert { ttl_ns, .. }, Some(_)) if *ttl_ns >= u64::MAX - 3 => add("ttl_beyond_any_representable_deadline", 1),
                 (Op::Sleep { .. }, Some(_)) => add("virtual_sleep", 1),
